@@ -118,8 +118,63 @@ class SeededRandomModule:
     def choice(self, seq):
         return seq[self._draw(len(seq))]
 
+    # the `secrets` flavour and a few more of `random`
+    def randbelow(self, n):
+        return self._draw(n)
+
+    def randbytes(self, n):
+        return bytes(self._draw(256) for _ in range(n))
+
+    token_bytes = randbytes
+
+    def token_hex(self, n=32):
+        return self.randbytes(n).hex()
+
+    def token_urlsafe(self, n=32):
+        import base64
+        return base64.urlsafe_b64encode(self.randbytes(n)).rstrip(b"=").decode("ascii")
+
+    def uniform(self, a, b):
+        return a + (b - a) * self.random()
+
+    def shuffle(self, x):
+        for i in reversed(range(1, len(x))):
+            j = self._draw(i + 1)
+            x[i], x[j] = x[j], x[i]
+
+    def sample(self, population, k):
+        pool = list(population)
+        self.shuffle(pool)
+        return pool[:k]
+
+    def SystemRandom(self, *a):
+        return self
+
+    Random = SystemRandom
+
+    def seed(self, *a, **k):
+        return None
+
+    def compare_digest(self, a, b):
+        import hmac
+        return hmac.compare_digest(a, b)
+
     def __getattr__(self, name):
         raise SeamGap("random.%s is not provided by the seam" % name)
+
+
+class _ProxyModule:
+    """A module with a few nondeterministic functions replaced (os.urandom, uuid.uuid4 ...); the rest is the real one."""
+
+    def __init__(self, real, overrides):
+        self.__dict__["_real"] = real
+        self.__dict__["_over"] = overrides
+
+    def __getattr__(self, name):
+        o = self.__dict__["_over"]
+        if name in o:
+            return o[name]
+        return getattr(self.__dict__["_real"], name)
 
 
 class Outcome:
@@ -188,10 +243,11 @@ class World:
             self.client_cls = rc.RefClient
             self.error_cls = rc.Error
         else:
-            self._saved = ("real", ms.socket, ms.ssl, dm.random, ms.Client.read_size, ms.Client.read_timeout)
+            self._saved = ("real", ms.socket, ms.ssl, getattr(dm, "random", None), ms.Client.read_size, ms.Client.read_timeout)
             ms.socket = self.net.socket_module
             ms.ssl = self.net.ssl_module
-            dm.random = SeededRandomModule(self.ch)
+            if hasattr(dm, "random"):
+                dm.random = SeededRandomModule(self.ch)
             # seams a future tree may grow: a clock (virtualised), a randomness source in the client module (seeded),
             # modules that cannot be simulated (gap-raising stand-ins)
             import types
@@ -206,6 +262,16 @@ class World:
                     elif v.__name__ in ("random", "secrets") and not (mod is dm and k == "random"):
                         self._extra.append((mod, k, v))
                         setattr(mod, k, SeededRandomModule(self.ch))
+                    elif v.__name__ == "os":
+                        rnd = SeededRandomModule(self.ch)
+                        self._extra.append((mod, k, v))
+                        setattr(mod, k, _ProxyModule(v, {"urandom": rnd.randbytes, "getrandom": lambda n, flags=0: rnd.randbytes(n)}))
+                    elif v.__name__ == "uuid":
+                        import uuid as _uuid
+                        rnd = SeededRandomModule(self.ch)
+                        mk = lambda *a, **kw: _uuid.UUID(bytes=rnd.randbytes(16), version=4)      # noqa: E731
+                        self._extra.append((mod, k, v))
+                        setattr(mod, k, _ProxyModule(v, {"uuid4": mk, "uuid1": mk}))
                     elif v.__name__ in GAP_MODULES:
                         self._extra.append((mod, k, v))
                         setattr(mod, k, _GapModule(v.__name__))
@@ -235,7 +301,9 @@ class World:
             from . import refclient as rc
             _, rc.socket, rc.ssl, rc.RefClient.read_size, rc.RefClient.read_timeout = self._saved
         else:
-            _, ms.socket, ms.ssl, dm.random, ms.Client.read_size, ms.Client.read_timeout = self._saved
+            _, ms.socket, ms.ssl, saved_random, ms.Client.read_size, ms.Client.read_timeout = self._saved
+            if saved_random is not None:
+                dm.random = saved_random
             for mod, k, v in getattr(self, "_extra", []):
                 setattr(mod, k, v)
         if self._gc:
